@@ -30,10 +30,12 @@ META["text"] = (
     "Tie: the model is evaluated at binary64 inside Coq on the inputs of this run and compared with mjc_PlaneSphere, mjc_SphereSphere, mjc_PlaneCapsule, mjc_SphereCapsule, mjc_CapsuleCapsule (called through the mjCOLLISIONFUNC table entries on two-geom mjSpec models with poses written into mjData), mju_makeFrame and mj_geomDistance in both geom orders. "
     "Oracle on implementation output (no theorem involved): for every contact of the direct calls and for EVERY contact produced by mj_collision on two-geom worlds and mjgen scenes: |normal| = 1, frame orthonormal right-handed with first row the normal (1e-10), dist <= margin+gap, includemargin = margin; "
     "for the analytic pairs the smallest contact dist equals an independently computed true signed distance (golden-section search for segment-segment), the surface points pos -+ dist/2 n lie on the two surfaces and the normal leaves geom 1 / enters geom 2; mj_geomDistance is symmetric in its two geoms and agrees with the smallest contact dist of the pair. "
+    "C13_sphere_cylinder_deep: mjc_SphereCylinder with the sphere centre strictly inside the cylinder (either half) reports dist = -min(h-|x|, R-rho) - r, i.e. the nearer of cap and side, and emits iff that is <= margin; the outside arms (side, cap, corner) are in the model and the tie without theorem. "
+    "Deep-penetration strata (sphere centre inside a sphere / capsule / cylinder / box: every region, both halves, cap-vs-side ties, on the axis; plane pairs and analytic pairs 13 cm deep in the aligned stream) are checked against closed-form signed distances that are valid at every depth. "
     "mjc_PlaneCylinder (all four contacts, both arms of the 'disk parallel to plane' switch, as fixed in /repo: threshold len_sqr >= mjMINVAL) is in the model and in the float tie but has NO theorem: it is covered by the tie and by the oracle (true signed distance through the closed form, surface points, 18 near-parallel angles per tilted frame). "
     "A structured degenerate-alignment stream runs every primitive pair (plane, sphere, capsule, ellipsoid, cylinder, box) through the full pipeline with axes exactly parallel / perpendicular / at 45 degrees, placed along axes and diagonals at gaps 0, inside the margin, penetrating and beyond the margin, "
     "in a canonical frame and under a common random rigid motion (rotation composed about three axes) and in both geom orders; oracles there: per-contact checks, true signed distance (plane pairs exactly through the support function of the second geom, other pairs through a certified alternating-projection reference when separated), "
-    "mj_geomDistance, and covariance (same smallest dist and mj_geomDistance, every contact has a partner with equal dist and rotated pos/normal); the mj_geomDistance clauses of exactly touching GJK/EPA pairs are delegated to C15 (known finding touching-degenerate) and counted. "
+    "mj_geomDistance, and covariance (same smallest dist and mj_geomDistance, every contact has a partner with equal dist and rotated pos/normal); for GJK/EPA pairs (and box-box) only the per-contact clauses are applied there: their distance values in this exactly-aligned family are C15's business (known findings touching-degenerate, deep-core-on-axis) and are counted as delegated. "
     "Floating point is outside the theorems: in particular C13_frame holds over the reals for every y, while at binary64 a given y-axis of length >= 2 exactly parallel to x leaves a rounding residue above mjMINVAL "
     "so the fallback of the (fixed) mju_makeFrame does not fire (not reachable from the colliders, whose tangents are zero or unit axes), and a y-axis at angle a to x gives orthogonality error ~1e-16/a (single-pass Gram-Schmidt). "
     "Not covered by theorems: box colliders, plane/sphere-cylinder, ellipsoid/cylinder/mesh pairs (GJK/EPA) — these only get the generic per-contact oracle (unit normal, orthonormal frame, dist <= margin, mj_geomDistance symmetry/agreement with a loose tolerance).")
@@ -42,8 +44,8 @@ META["note"] = ("Trusted: Coq kernel + the standard-library real-number axioms l
 
 TOL = "0x1p-30"
 PLANE, SPHERE, CAPSULE = 0, 2, 3
-PAIRS = {"PS": (0, PLANE, SPHERE), "SS": (1, SPHERE, SPHERE), "PC": (2, PLANE, CAPSULE), "SC": (3, SPHERE, CAPSULE), "CC": (4, CAPSULE, CAPSULE), "PY": (6, PLANE, 5)}
-ANALYTIC_TYPES = {(PLANE, SPHERE), (SPHERE, SPHERE), (PLANE, CAPSULE), (SPHERE, CAPSULE), (CAPSULE, CAPSULE), (PLANE, 5)}
+PAIRS = {"PS": (0, PLANE, SPHERE), "SS": (1, SPHERE, SPHERE), "PC": (2, PLANE, CAPSULE), "SC": (3, SPHERE, CAPSULE), "CC": (4, CAPSULE, CAPSULE), "PY": (6, PLANE, 5), "SY": (7, SPHERE, 5)}
+ANALYTIC_TYPES = {(PLANE, SPHERE), (SPHERE, SPHERE), (PLANE, CAPSULE), (SPHERE, CAPSULE), (CAPSULE, CAPSULE), (PLANE, 5), (SPHERE, 5), (SPHERE, 6)}
 CCD_FUNCS = "pairs routed to mjc_Convex / mjc_BoxBox (GJK/EPA distance in mj_geomDistance)"
 GEOMNAME = {0: "plane", 1: "hfield", 2: "sphere", 3: "capsule", 4: "ellipsoid", 5: "cylinder", 6: "box", 7: "mesh", 8: "sdf"}
 
@@ -170,6 +172,10 @@ def sdf(t, pos, mat, size, p):
         dr = norm(sub(v, scl(a, z))) - size[0]
         dz = abs(z) - size[1]
         return math.hypot(max(dr, 0.0), max(dz, 0.0)) if max(dr, dz) > 0 else max(dr, dz)
+    if t == 6:        # solid box
+        v = sub(p, pos)
+        q = [abs(dot(v, [mat[i], mat[3 + i], mat[6 + i]])) - size[i] for i in range(3)]
+        return norm([max(x, 0.0) for x in q]) if max(q) > 0 else max(q)
     return None
 
 
@@ -183,6 +189,9 @@ def true_dist(t1, pos1, mat1, size1, t2, pos2, mat2, size2):
         return min(dot(sub(add(pos2, scl(a, s * size2[1])), pos1), n) for s in (1, -1)) - size2[0]
     if (t1, t2) == (SPHERE, CAPSULE):
         return seg_point_dist(pos1, pos2, zax(mat2), size2[1]) - size1[0] - size2[0]
+    if t1 == SPHERE and t2 in (5, 6):
+        # signed distance of the sphere centre to the solid (negative inside: minus the depth of the centre) minus the radius
+        return sdf(t2, pos2, mat2, size2, pos1) - size1[0]
     if (t1, t2) == (PLANE, 5):
         n, a = zax(mat1), zax(mat2)
         k = dot(a, n)
@@ -347,6 +356,38 @@ def pair_cases(ctx):
         # upright / lying capsule on a plane, tilted planes
         addc("PC", p, m1, [1, 1, 0.1], add(p, scl(zax(m1), 0.6)), m1, [0.125, 0.5, 0], 0.0, kind="upright")
         addc("PC", p, m1, [1, 1, 0.1], add(p, scl(zax(m1), 0.1)), quat2mat(quat_z_to(side)), [0.125, 0.5, 0], 0.0, kind="lying")
+    # sphere : cylinder, DEEP penetration (sphere centre inside the cylinder): both halves, nearer to a cap / to the side, near the
+    # cap-vs-side tie, on the axis; plus the three outside regions (side, cap, corner) close to the region boundaries
+    for k in range(25 if not big else 300):
+        m1, m2 = rmat(rng), (rmat(rng) if k % 5 else EYE)
+        R, hh, r = rng.uniform(0.1, 0.4), rng.uniform(0.1, 0.4), rng.uniform(0.02, 0.15)
+        a = zax(m2)
+        ex = [m2[0], m2[3], m2[6]]
+        ey = [m2[1], m2[4], m2[7]]
+        c2 = rvec(rng)
+        mode = k % 7
+        ang = rng.uniform(0, 2 * math.pi)
+        if mode <= 3:       # centre inside: (lower/upper half) x (nearer cap / nearer side)
+            sgn = -1 if mode % 2 else 1
+            if mode < 2:
+                z = sgn * hh * rng.uniform(0.6, 0.98)
+                rho = R * rng.uniform(0.0, max(0.0, 1 - (hh - abs(z)) / R) * 0.9) if R > hh - abs(z) else 0.0
+            else:
+                rho = R * rng.uniform(0.6, 0.98)
+                z = sgn * hh * rng.uniform(0.0, max(0.0, 1 - (R - rho) / hh) * 0.9)
+            kind = "deep"
+        elif mode == 4:     # cap and side (almost) equally near
+            d = rng.uniform(0.02, 0.9 * min(R, hh))
+            sgn = rng.choice([-1, 1])
+            z, rho, kind = sgn * (hh - d), R - d * (1 + rng.choice([1e-3, -1e-3, 1e-9, -1e-9])), "deep-near-tie"
+        elif mode == 5:     # centre on the axis
+            z, rho, kind = rng.uniform(-0.95, 0.95) * hh, 0.0, "deep-on-axis"
+        else:               # outside, next to a region boundary
+            z = rng.choice([-1, 1]) * hh * rng.choice([0.999, 1.001, 1.3, 0.5])
+            rho = R * rng.choice([0.999, 1.001, 1.3, 0.5])
+            kind = "outside-regions"
+        c1 = add(c2, add(scl(a, z), add(scl(ex, rho * math.cos(ang)), scl(ey, rho * math.sin(ang)))))
+        addc("SY", c1, m1, [r, 0, 0], c2, m2, [R, hh, 0], rng.choice([0.0, 0.02, 1.0]), kind=kind)
     # exactly touching / exactly at the margin (identity matrices, dyadic numbers: every operation is exact)
     for mg in (0.0, 0.125, 0.5):
         for off in (0.0, 2.0 ** -40, -2.0 ** -40, 2.0 ** -20):
@@ -423,6 +464,30 @@ def world_cases(ctx):
         cs.append((PLANE, [1, 1, 0.1], [0, 0, 0], q, CAPSULE, [0.1, 0.2, 0], scl(nrm, h), q, [0, 0, 0, 0, 1.0], "upright-capsule-on-tilted-plane"))
         qf = [-q[1], q[0], q[3], -q[2]]      # q * (0,1,0,0): z axis reversed
         cs.append((PLANE, [1, 1, 0.1], [0, 0, 0], q, CAPSULE, [0.1, 0.2, 0], scl(nrm, h), qf, [0.01, 0.02, 0, 0, 1.0], "upside-down-capsule-on-tilted-plane"))
+    # DEEP penetration: the sphere centre at a random interior point of a sphere / capsule / cylinder / box (all regions: near every
+    # face, cap, side, both halves), random orientations, either geom on the moving body
+    for k in range(40 if not big else 600):
+        t2 = [SPHERE, CAPSULE, 5, 6][k % 4]
+        s2 = [rng.uniform(0.1, 0.35) for _ in range(3)]
+        q1, q2 = rquat(rng), rquat(rng)
+        m2 = quat2mat(q2)
+        p2 = rvec(rng, 0.3)
+        u = [rng.uniform(-0.97, 0.97) for _ in range(3)]
+        if t2 == SPHERE:
+            loc = scl(u, s2[0] / math.sqrt(3))
+        elif t2 == CAPSULE:
+            loc = [u[0] * s2[0] * 0.7, u[1] * s2[0] * 0.7, u[2] * s2[1]]
+        elif t2 == 5:
+            loc = [u[0] * s2[0] * 0.7, u[1] * s2[0] * 0.7, u[2] * s2[1]]
+        else:
+            loc = [u[i] * s2[i] for i in range(3)]
+        p1 = add(p2, matvec3(m2, loc))
+        s1 = [rng.uniform(0.02, 0.12), 0.1, 0.1]
+        mg = [0, 0, 0, 0, 0.5]
+        if k % 2:
+            cs.append((SPHERE, s1, p1, q1, t2, s2, p2, q2, mg, "deep"))
+        else:
+            cs.append((t2, s2, p2, q2, SPHERE, s1, p1, q1, mg, "deep"))
     types = [SPHERE, CAPSULE, 4, 5, 6]
     n = 40 if not big else 500
     for k in range(n):
@@ -463,7 +528,7 @@ ALIGNED_QUATS = [("aligned", [1.0, 0, 0, 0]), ("flipped", [0.0, 1.0, 0, 0]), ("a
                  ("axis-perpendicular-y", qaxis([0, 1.0, 0], math.pi / 2)), ("edge-45", qaxis([1.0, 0, 0], math.pi / 4)), ("yaw-30", qaxis([0, 0, 1.0], math.pi / 6))]
 ALIGNED_DIRS = [("+z", [0.0, 0, 1.0]), ("-z", [0.0, 0, -1.0]), ("+x", [1.0, 0, 0]), ("+y", [0, 1.0, 0]), ("xy-diagonal", [math.sqrt(0.5), math.sqrt(0.5), 0]),
                 ("space-diagonal", [1 / math.sqrt(3)] * 3)]
-ALIGNED_GAPS = [0.0, 0.004, -0.01, 0.05]
+ALIGNED_GAPS = [0.0, 0.004, -0.01, 0.05, -0.13]      # touching, inside the margin, shallow, beyond the margin, DEEP (core inside)
 ALIGNED_MARGIN = 0.01            # per geom: contacts are detected up to 0.02
 
 
@@ -485,7 +550,10 @@ def aligned_cases(ctx):
                 continue
             quats = ALIGNED_QUATS if tB != SPHERE else ALIGNED_QUATS[:1]
             dirs = ALIGNED_DIRS[:1] if tA == PLANE else (ALIGNED_DIRS if tA != SPHERE else ALIGNED_DIRS[:3])
-            combos = [(qn, q, dn, d, gap) for (qn, q) in quats for (dn, d) in dirs for gap in ALIGNED_GAPS]
+            gjk = (tA, tB) in ((SPHERE, ELLIPSOID), (CAPSULE, ELLIPSOID), (CAPSULE, CYLINDER), (ELLIPSOID, ELLIPSOID), (ELLIPSOID, CYLINDER), (ELLIPSOID, BOX),
+                               (CYLINDER, CYLINDER), (CYLINDER, BOX), (BOX, BOX))
+            # (deep penetration of GJK/EPA pairs belongs to C15, which has the convex-optimisation reference for it)
+            combos = [(qn, q, dn, d, gap) for (qn, q) in quats for (dn, d) in dirs for gap in ALIGNED_GAPS if not (gjk and gap < -0.05)]
             if tA != PLANE and not big:                    # quick tier: plane pairs exhaustively, a sample of the others
                 combos = rng.sample(combos, 4)
             elif tA != PLANE:
@@ -578,6 +646,12 @@ def aligned_oracle(ctx, cases, results, stats):
             check_full_contact(ctx, "ALIGNED", case, tA, tB, con["dist"], con["pos"], con["frame"], con["inc"], w["detect"], 2 * ALIGNED_MARGIN)
         dists = [con["dist"] for con in w["cons"]]
         direct = (tA, tB) in DIRECT
+        if not direct:
+            # GJK/EPA pairs (and box-box, whose mj_geomDistance is GJK/EPA): only the per-contact clauses above belong to C13; the
+            # distance values of exactly aligned GJK pairs are C15's business (known findings touching-degenerate / deep-core-on-axis
+            # and the GJK stagnation coincidences live in exactly this family) and are exercised there with the convex reference
+            stats["gjk_pairs_generic_clauses_only"] = stats.get("gjk_pairs_generic_clauses_only", 0) + 1
+            continue
         # ---- true signed distance
         td = None
         if tA == PLANE:
@@ -585,6 +659,9 @@ def aligned_oracle(ctx, cases, results, stats):
             X = H.Shape(tB, sB, pB, quat2mat(qB))
             td = -X.h(scl(n, -1.0)) - dot(n, pA)              # lowest point of the convex geom above the plane (signed)
             tol = 1e-9
+        elif (tA, tB) in ANALYTIC_TYPES and not ((tA, tB) == (CAPSULE, CAPSULE) and any(oh)):
+            td = true_dist(tA, pA, quat2mat(qA), sA, tB, pB, quat2mat(qB), sB)      # closed forms, signed, valid at every depth
+            tol = 1e-9 + (5e-8 * sB[0] if tB == 5 else 0.0)
         else:
             ref = H.separated_reference(H.Shape(tA, sA, pA, quat2mat(qA)), H.Shape(tB, sB, pB, quat2mat(qB)), iters=600)
             if ref is not None and ref[1] - ref[0] < 1e-7 and ref[0] > 1e-6:
@@ -592,8 +669,10 @@ def aligned_oracle(ctx, cases, results, stats):
                 tol = 2e-6 if direct else 1e-5 + 5e-3 * max(0.0, w["detect"] - td)
         if td is not None:
             stats["with_true_distance"] += 1
-            if td < w["detect"] - 1e-6 and not dists:
+            if td < w["detect"] - 1e-6 and not dists and direct:
                 viol("contact emitted iff distance <= margin", "a contact (true signed distance %.17g < margin+gap %.17g)" % (td, w["detect"]), "ncon=0", "emit")
+            elif td < w["detect"] - 1e-6 and not dists:
+                stats["nondirect_missing_contact_within_margin"] = stats.get("nondirect_missing_contact_within_margin", 0) + 1
             if td > w["detect"] + 1e-6 and dists:
                 viol("contact emitted iff distance <= margin", "no contact (true signed distance %.17g > margin+gap %.17g)" % (td, w["detect"]), dists, "emit")
             if dists and abs(min(dists) - td) > tol and not (tA == BOX and tB == BOX):
@@ -613,6 +692,8 @@ def aligned_oracle(ctx, cases, results, stats):
         c0, w0 = ref
         tA, tB = c0["tA"], c0["tB"]
         direct = (tA, tB) in DIRECT
+        if not direct:
+            continue
         if (tA, tB) == (CAPSULE, CAPSULE):
             w_ = aligned_world(c0)
             if any(cc_overhang(w_[2], quat2mat(w_[3]), w_[1], w_[6], quat2mat(w_[7]), w_[5])):
@@ -645,6 +726,15 @@ def aligned_oracle(ctx, cases, results, stats):
                 # every contact of the smaller set has a covariant partner in the other one: dist equal, pos and normal rotated
                 # (the normal points from the geom of lower type to the other one in every order, so it is not reversed by the swap)
                 small, large, fwd = (w0["cons"], w["cons"], True) if len(d0) <= len(d1) else (w["cons"], w0["cons"], False)
+                # parallel capsules: which two of the four candidate contacts are returned depends on the geom order (only the nearest is compared);
+                # sphere centre deep inside a cylinder / box: two faces can be equally near (45-degree placements), the face is then a convention
+                nearest_only = (tA, tB) == (CAPSULE, CAPSULE) and c["swap"]
+                dist_only = tA == SPHERE and tB in (5, 6) and c0["gap"] < -0.05
+                w_ = aligned_world(c0)
+                # parallel capsules: the nearest points are not unique along the overlap (dist and normal are compared, not pos)
+                pos_free = (tA, tB) == (CAPSULE, CAPSULE) and norm(cross(zax(quat2mat(w_[3])), zax(quat2mat(w_[7])))) < 1e-7
+                if nearest_only:
+                    small = [x for x in small if x["dist"] <= min(y["dist"] for y in small) + 1e-9][:1]
                 for x in small:
                     px, nx = (add(matvec3(R, x["pos"]), tR), matvec3(R, x["frame"][:3])) if fwd else (x["pos"], x["frame"][:3])
                     ok = False
@@ -652,7 +742,7 @@ def aligned_oracle(ctx, cases, results, stats):
                         py, ny = (y["pos"], y["frame"][:3]) if fwd else (add(matvec3(R, y["pos"]), tR), matvec3(R, y["frame"][:3]))
                         same_type_swap = c["swap"] and tA == tB
                         nn = scl(ny, -1.0) if same_type_swap else ny
-                        if abs(x["dist"] - y["dist"]) <= 1e-9 and norm(sub(px, py)) <= 1e-8 and norm(sub(nx, nn)) <= 1e-8:
+                        if abs(x["dist"] - y["dist"]) <= 1e-9 and (dist_only or ((pos_free or norm(sub(px, py)) <= 1e-8) and norm(sub(nx, nn)) <= 1e-8)):
                             ok = True
                             break
                     if not ok:
@@ -680,13 +770,19 @@ def coq_pre():
         "  else if (op =? 2)%Z then planeCapsule mg p1 m1 p2 m2 (g a 27) (g a 28)",
         "  else if (op =? 3)%Z then sphereCapsule mg p1 m1 (g a 12) p2 m2 (g a 27) (g a 28)",
         "  else if (op =? 6)%Z then planeCylinder mg p1 m1 p2 m2 (g a 27) (g a 28)",
+        "  else if (op =? 7)%Z then sphereCylinder mg p1 m1 (g a 12) p2 m2 (g a 27) (g a 28)",
         "  else (if swap then capsuleCapsule mg p2 m2 (g a 27) (g a 28) p1 m1 (g a 12) (g a 13) else capsuleCapsule mg p1 m1 (g a 12) (g a 13) p2 m2 (g a 27) (g a 28)).",
         "Definition model (op : Z) (a : list float) : list float :=",
         "  if (op =? 5)%Z then match makeFrame (V a 0) (V a 3) with Some (x, y, z) => v2l x ++ v2l y ++ v2l z | None => [] end",
         "  else let cs := collide op a false in let mg := g a 30 in",
         "    cl cs ++ gd2l (geomDistance false cs mg) ++",
         "    gd2l (if ((op =? 1) || (op =? 4))%Z then geomDistance false (collide op a true) mg else geomDistance true cs mg).",
-        "Definition chk (c : Z * list float * list float) : bool := let '(op, a, out) := c in fclose_list %s (model op a) out." % TOL,
+        "(* ops >= 100: two contacts tie for the smallest distance (to rounding): which one mj_geomDistance picks for its witness points depends on",
+        "   rounding, so the witness points are not compared, only the contacts and the two distances *)",
+        "Definition chk (c : Z * list float * list float) : bool := let '(op, a, out) := c in",
+        "  if (100 <=? op)%Z then (let m := model (op - 100)%Z a in let k := (length out - 14)%nat in",
+        "    fclose_list %s (firstn (S k) m) (firstn (S k) out) && fclose %s (nth (k + 7) m 0%%float) (nth (k + 7) out 0%%float))" % (TOL, TOL),
+        "  else fclose_list %s (model op a) out." % TOL,
     ]) + "\n"
 
 
@@ -711,7 +807,7 @@ def oracle_pair(ctx, name, a, meta, parsed, stats):
     kind = meta["kind"]
     if kind in ("negative-margin", "zero-length"):
         return
-    sig = {"site": "mjc_" + {"PS": "PlaneSphere", "SS": "SphereSphere", "PC": "PlaneCapsule", "SC": "SphereCapsule", "CC": "CapsuleCapsule", "PY": "PlaneCylinder"}[name]}
+    sig = {"site": "mjc_" + {"PS": "PlaneSphere", "SS": "SphereSphere", "PC": "PlaneCapsule", "SC": "SphereCapsule", "CC": "CapsuleCapsule", "PY": "PlaneCylinder", "SY": "SphereCylinder"}[name]}
 
     def viol(what, exp, obs, cls):
         ctx.violation("impl_violation", {"pair": name, "kind": kind, "args": a, "what": what}, expected=exp, observed=obs,
@@ -738,7 +834,12 @@ def oracle_pair(ctx, name, a, meta, parsed, stats):
         # lowest rim direction (error <= r * angle), just above it the normalised cancellation vector carries ~1e-16/3.2e-8 relative noise
         tol += 5e-8 * size2[0]
     # coincident centre points (sphere centres / nearest segment points): the normal direction is a convention
-    degenerate = kind.startswith(("coincident", "near-coincident")) or (t1 != PLANE and td + size1[0] + size2[0] < 1e-12)
+    degenerate = kind.startswith(("coincident", "near-coincident")) or (t1 != PLANE and name != "SY" and td + size1[0] + size2[0] < 1e-12)
+    if name == "SY":
+        v_ = sub(pos1, pos2)
+        a_ = zax(mat2)
+        rho_ = norm(sub(v_, scl(a_, dot(v_, a_))))
+        degenerate = rho_ < 1e-9 or kind == "deep-tie"        # centre on the axis / cap and side equally near: the direction is a convention
     # emitted iff true distance <= margin (outside a tolerance band; exact in the dyadic 'touching' cases)
     exact = kind.startswith("touching")
     if exact:
@@ -830,7 +931,9 @@ def run(ctx):
                           signature={"site": "mjc_" + nm, "class": "error"})
             continue
         oracle_pair(ctx, nm, a, meta, parsed, stats)
-        coq_cases.append("(%d%%Z, %s, %s)" % (PAIRS[nm][0], F.flist(a), F.flist(parsed[3])))
+        ds_ = sorted(c_["dist"] for c_ in parsed[1])
+        tie = len(ds_) >= 2 and abs(ds_[0] - ds_[1]) <= 1e-9 * (1 + abs(ds_[0]))
+        coq_cases.append("(%d%%Z, %s, %s)" % (PAIRS[nm][0] + (100 if tie else 0), F.flist(a), F.flist(parsed[3])))
         descr.append(("PAIR " + nm, a, meta["kind"], line))
         # the frame mj_setContact would build from each pre-contact
         for c in parsed[1]:
@@ -904,6 +1007,11 @@ def run(ctx):
             detect, gd12, ft12, gd21, ft21 = v[0], v[1], v[2:8], v[8], v[9:15]
             rest = t[16:]
             t1, t2 = c[0], c[4]
+            # contacts are reported with the geom of lower type first: order the descriptors the same way
+            (gs1, gp1, gq1), (gs2, gp2, gq2) = (c[1], c[2], c[3]), (c[5], c[6], c[7])
+            if t1 > t2:
+                t1, t2 = t2, t1
+                (gs1, gp1, gq1), (gs2, gp2, gq2) = (gs2, gp2, gq2), (gs1, gp1, gq1)
             dists = [unhx(rest[16 * i]) for i in range(ncon)]
             for i in range(ncon):
                 r = rest[16 * i:16 * i + 16]
@@ -912,8 +1020,9 @@ def run(ctx):
                 nworld_con += 1
                 check_full_contact(ctx, "WORLD", case, t1, t2, dist, pos, frame, inc, detect, c[8][0] + c[8][2])
                 if (t1, t2) in ANALYTIC_TYPES:
-                    m1, m2 = quat2mat(c[3]), quat2mat(c[7])
-                    fl = check_contact_geometry(t1, c[2], m1, c[1], t2, c[6], m2, c[5], dist, pos, frame[:3], False, nearest=dist <= min(dists) + 1e-12)
+                    m1, m2 = quat2mat(gq1), quat2mat(gq2)
+                    onaxis = t1 == SPHERE and t2 == 5 and norm(cross(sub(gp1, gp2), zax(m2))) < 1e-9
+                    fl = check_contact_geometry(t1, gp1, m1, gs1, t2, gp2, m2, gs2, dist, pos, frame[:3], onaxis, nearest=dist <= min(dists) + 1e-12)
                     for s in fl[:1]:
                         ctx.violation("impl_violation", dict(case, what=s), expected="see text", observed=s, theorem="C13 oracle: " + s.split(" (")[0],
                                       signature={"site": "mj_collision", "pair": "%s-%s" % (GEOMNAME[t1], GEOMNAME[t2]), "class": "geometry"})
@@ -921,11 +1030,11 @@ def run(ctx):
             pairstat[key] = pairstat.get(key, 0) + ncon
             check_geomdist(ctx, "WORLD", case, t1, t2, dists, gd12, ft12, gd21, ft21, c[8][4])
             if (t1, t2) in ANALYTIC_TYPES:
-                td = true_dist(t1, c[2], quat2mat(c[3]), c[1], t2, c[6], quat2mat(c[7]), c[5])
+                td = true_dist(t1, gp1, quat2mat(gq1), gs1, t2, gp2, quat2mat(gq2), gs2)
                 if td < detect - 1e-9 and not dists:
                     ctx.violation("impl_violation", case, expected="a contact (true distance %.17g < margin+gap %.17g)" % (td, detect), observed="ncon=0", theorem="C13 oracle: contact emitted iff distance <= margin",
                                   signature={"site": "mj_collision", "pair": key, "class": "emit"})
-                if dists and abs(min(dists) - td) > 1e-9:
+                if dists and abs(min(dists) - td) > 1e-9 + (5e-8 * gs2[0] if (t1, t2) == (PLANE, 5) else 0.0):
                     ctx.violation("impl_violation", case, expected=td, observed=min(dists), theorem="C13 oracle: smallest contact dist = true signed distance",
                                   signature={"site": "mj_collision", "pair": key, "class": "dist"})
     # ---------------- full pipeline: structured degenerate alignments, canonical frame vs common rigid motion, both geom orders
